@@ -2,6 +2,7 @@
 C12 — Every reported issue is well-formed and points at the offending text.
 -/
 import HedVerif.Model.Issue
+import HedVerif.Props.C12Stack
 import HedVerif.Generated.C12Sort
 
 namespace HedVerif.Issue
